@@ -286,6 +286,30 @@ impl ContinuityStreamCache {
         decreases __s2.len() - __i2
     //@@ end
 
+    #[verifier::external_body] pub fn lookup_message_anchor_v1(&self, id: &str, sidecar_path: &Path, message_id: &str) -> io::Result<Option<(u64, u64)>> { unimplemented!() }
+    #[verifier::external_body] pub fn window_recent_messages_v1_from_seq(&self, id: &str, from_seq: u64, message_limit: usize) -> io::Result<Option<ContinuityWindow>> { unimplemented!() }
+
+    //@@ fn crates/ripd/src/continuity_stream_cache.rs ContinuityStreamCache::boundary_pos_for_seq_v1
+    //@@ alias serde_json::from_slice vjson2::from_slice
+    //@@ rewrite &[SeqSeekIndexEntryV1] ==>> &Vec<SeqSeekIndexEntryV1>
+    //@@ sig
+    //@@ loop 0
+        invariant true,
+        decreases bytes_left(reader)      // [boundary.search_for_the_first_frame_after_the_cut_ends_with_the_file]
+    //@@ loopbody 0
+        broadcast use group_string_eq;
+    //@@ end
+
+    //@@ fn crates/ripd/src/continuity_stream_cache.rs ContinuityStreamCache::window_recent_messages_v1_from_message_id_full_sidecar
+    //@@ alias serde_json::from_slice vjson2::from_slice
+    //@@ sig
+    //@@ loop 0
+        invariant true,
+        decreases bytes_left(reader)      // [full_window.search_for_the_next_message_ends_with_the_file]
+    //@@ loopbody 0
+        broadcast use group_string_eq;
+    //@@ end
+
     //@@ fn crates/ripd/src/continuity_stream_cache.rs ContinuityStreamCache::try_read_last_seq_for_sidecar_path
     //@@ rewrite tail.headers.into_iter().next() ==>> vfirst_header(tail.headers)
     //@@ sig
